@@ -38,13 +38,31 @@ def translate_shared(ctx):
     return True
 
 
+def translate_headershare(ctx):
+    """trC11 headershare: EnrichRequestWithHeaders / header/date UpdateRequest / middleware registry / Provider.Acquire
+    -> coq/Gen/HeaderShareGen.v (part (d): requests held by several instances of one http provider)."""
+    tr = ctx.build_harness("trC11")
+    if tr is None:
+        return False
+    tmp = os.path.join(ctx.work, "HeaderShareGen.v")
+    rc, out = common.sh([tr, "headershare", common.REPO, tmp], timeout=300, env=common.goenv())
+    if rc != 0:
+        ctx.broken("translator 'trC11 headershare' could not re-read EnrichRequestWithHeaders / header/date UpdateRequest "
+                   "(a store through the shared header values, or a middleware statement outside Add / Set)", out)
+        return False
+    if common.write_if_changed(os.path.join(common.COQ, "Gen", "HeaderShareGen.v"), open(tmp).read()):
+        ctx.log("regenerated Gen/HeaderShareGen.v (changed)")
+    return True
+
+
 def run(ctx):
     cov = {"rule": RULE, "evaluations": 0, "distinct_nontrivial": 0}
     ok_t = common.translate(ctx, "grpcstatus", "GrpcStatusGen.v")
     translate_shared(ctx)
+    translate_headershare(ctx)
     model_ok = ok_t and ctx.coq(["Extract/ExtractC11.vo"], what="model+extraction")
     if model_ok:
-        ctx.properties(extra_files=["Properties/C11_sched.v", "Properties/C11_share.v", "Gen/SharedSched_bridge.v"])
+        ctx.properties(extra_files=["Properties/C11_sched.v", "Properties/C11_share.v", "Gen/SharedSched_bridge.v", "Gen/HeaderShare_bridge.v"])
     m = ctx.ocaml_model("mC11", "C11_model", "C11") if model_ok else None
     replay_kind = None
     if ctx.replay:
